@@ -281,6 +281,8 @@ type c01Quota struct {
 	Weight       c01Vec // zero vector = no shared-weight annotation (defaults to max)
 	RV           int
 	Obj          *v1alpha1.ElasticQuota // last object delivered for this quota
+	Tree         string                 // quota tree id ("" = the default tree); only in the multi-tree unit
+	TreeRoot     bool                   // the root quota of a non-default tree
 }
 
 func (q *c01Quota) minEff() c01Vec {
@@ -294,6 +296,9 @@ func (q *c01Quota) minEff() c01Vec {
 }
 
 func (q *c01Quota) String() string {
+	if q.Tree != "" {
+		return fmt.Sprintf("%s{tree=%s treeRoot=%v parent=%s isParent=%v lent=%v max=%v min=%v/%v}", q.Name, q.Tree, q.TreeRoot, q.Parent, q.IsParent, q.AllowLent, q.Max, q.Min, q.MinHas)
+	}
 	return fmt.Sprintf("%s{parent=%s isParent=%v lent=%v max=%v min=%v/%v}", q.Name, q.Parent, q.IsParent, q.AllowLent, q.Max, q.Min, q.MinHas)
 }
 
@@ -306,6 +311,13 @@ func (q *c01Quota) build() *v1alpha1.ElasticQuota {
 	eq.Labels[extension.LabelQuotaParent] = q.Parent
 	eq.Labels[extension.LabelQuotaIsParent] = fmt.Sprint(q.IsParent)
 	eq.Labels[extension.LabelAllowLentResource] = fmt.Sprint(q.AllowLent)
+	if q.Tree != "" {
+		eq.Labels[extension.LabelQuotaTreeID] = q.Tree
+	}
+	if q.TreeRoot {
+		eq.Labels[extension.LabelQuotaIsRoot] = "true"
+		eq.Annotations[extension.AnnotationTotalResource] = `{"cpu":"64","memory":"64Gi"}`
+	}
 	if q.Weight != (c01Vec{}) {
 		b, _ := json.Marshal(c01RL(q.Weight, c01Both))
 		eq.Annotations[extension.AnnotationSharedWeight] = string(b)
@@ -395,13 +407,14 @@ type c01Flags struct {
 	IgnoreTerm       bool // feature ElasticQuotaImmediateIgnoreTerminatingPod
 	ScaleMin         bool
 	NoReparentOver   bool // exclusion pass: never re-parent/delete a quota whose own request exceeds its max
+	MultiTree        bool // (multi-tree unit) feature gate MultiQuotaTree: quotas may live in non-default quota trees, each with its own manager
 	Interleave       bool // (migrate-race unit, implies Parked) one pod event is delivered between the migrate cycle's snapshot and its per-pod step
 	Parked           bool // (parked-reserve unit) Reserve/Unreserve are also issued for a pod still parked in the default quota although its own quota exists
 }
 
 func (f c01Flags) String() string {
-	return fmt.Sprintf("orphans=%v eagerMigrate=%v freezeInFallback=%v parentPods=%v ignoreTerminating=%v scaleMin=%v excludeOverMaxMove=%v reserveWhileParked=%v",
-		f.Orphans, f.EagerMigrate, f.FreezeInFallback, f.ParentPods, f.IgnoreTerm, f.ScaleMin, f.NoReparentOver, f.Parked)
+	return fmt.Sprintf("orphans=%v eagerMigrate=%v freezeInFallback=%v parentPods=%v ignoreTerminating=%v scaleMin=%v excludeOverMaxMove=%v reserveWhileParked=%v multiTree=%v",
+		f.Orphans, f.EagerMigrate, f.FreezeInFallback, f.ParentPods, f.IgnoreTerm, f.ScaleMin, f.NoReparentOver, f.Parked, f.MultiTree)
 }
 
 var c01QuotaNames = []string{"q0", "q1", "q2", "q3", "q4", "q5"}
@@ -429,6 +442,8 @@ type c01World struct {
 	sawReserveParked, sawReserveMisrouted, sawUnreserveMisrouted                                    bool
 	sawWindowMoved, sawWindowDeleted, sawWindowChanged, sawWindowMigrated                           bool
 	sawParkedMoveReserved                                                                           bool
+	sawCrossTreeWindow, sawTreePod, sawCrossTreeMigrate, sawCrossTreeRelabel                        bool
+	sawCrossTreeReservedMigrate                                                                     bool
 	excludedMoves                                                                                   int
 }
 
@@ -595,13 +610,15 @@ type c01Family struct {
 func c01AnySymptom(string, string, string) bool { return true }
 
 const (
-	c01SigParkedMoveDropped = "parked-move:reservation-dropped-by-pod-update"
-	c01SigMigrateGone       = "migrateCycle:pod-left-default-quota-between-snapshot-and-migrate"
-	c01SigMigrateStale      = "migrateCycle:pod-updated-between-snapshot-and-migrate"
-	c01SigMisrouted         = "default-fallback:pod-event-misses-pod-still-counted-in-default-quota"
-	c01SigStaleCache        = "migrateCycle:cached-pod-object-stale"
-	c01SigReparentOver      = "quotaReparent:old-ancestors-request-undercounted:moved-quota-request-over-max"
-	c01SigDeleteOver        = "quotaDelete:ancestors-request-undercounted:deleted-quota-request-over-max"
+	c01SigCrossTreeMigrateDropped = "migrateCycle:cross-tree:reservation-dropped"
+	c01SigMisroutedCrossTree      = "default-fallback:cross-tree:pod-event-misses-pod-parked-in-default-tree"
+	c01SigParkedMoveDropped       = "parked-move:reservation-dropped-by-pod-update"
+	c01SigMigrateGone             = "migrateCycle:pod-left-default-quota-between-snapshot-and-migrate"
+	c01SigMigrateStale            = "migrateCycle:pod-updated-between-snapshot-and-migrate"
+	c01SigMisrouted               = "default-fallback:pod-event-misses-pod-still-counted-in-default-quota"
+	c01SigStaleCache              = "migrateCycle:cached-pod-object-stale"
+	c01SigReparentOver            = "quotaReparent:old-ancestors-request-undercounted:moved-quota-request-over-max"
+	c01SigDeleteOver              = "quotaDelete:ancestors-request-undercounted:deleted-quota-request-over-max"
 )
 
 // overMaxFamily: the quota that leaves (re-parent or delete) had request > max; the explained symptom is an
@@ -625,11 +642,20 @@ func (w *c01World) check(t *rapid.T) {
 		return
 	}
 	exp := c01Expect(w.quotas, w.pods)
-	summ := w.drv.Manager().GetQuotaSummaries(true)
-	for _, name := range vk.SortedKeys(summ) {
-		if _, ok := w.quotas[name]; !ok {
-			w.violation(t, w.sigFor("quota-set:unexpected", "", name), "manager reports quota %q which does not exist (any more)", name)
-			return
+	byTree := w.drv.Summaries()
+	summ := map[string]*c01Summary{}
+	for _, tree := range vk.SortedKeys(byTree) {
+		for _, name := range vk.SortedKeys(byTree[tree]) {
+			q, ok := w.quotas[name]
+			if !ok {
+				w.violation(t, w.sigFor("quota-set:unexpected", "", name), "manager of tree %q reports quota %q which does not exist (any more)", tree, name)
+				return
+			}
+			if q.Tree != tree || summ[name] != nil {
+				w.violation(t, w.sigFor("quota-set:wrong-tree", "", name), "quota %q of tree %q is reported by the manager of tree %q (reported twice=%v)", name, q.Tree, tree, summ[name] != nil)
+				return
+			}
+			summ[name] = byTree[tree][name]
 		}
 	}
 	names := vk.SortedKeys(w.quotas)
@@ -707,12 +733,15 @@ func (w *c01World) check(t *rapid.T) {
 		if q.IsParent && len(e.pods) > 0 {
 			w.sawParentPods = true
 		}
+		if q.Tree != "" && len(e.pods) > 0 {
+			w.sawTreePod = true
+		}
 	}
 	// the abstract root group is not part of GetQuotaSummaries; observed, not asserted
 	if root := w.drv.Manager().GetQuotaInfoByName(extension.RootQuotaName); root != nil {
 		var wantReq, wantUsed c01Vec
 		for _, name := range names {
-			if w.quotas[name].Parent == extension.RootQuotaName {
+			if w.quotas[name].Parent == extension.RootQuotaName && w.quotas[name].Tree == "" {
 				wantReq = wantReq.add(exp[name].lim)
 				wantUsed = wantUsed.add(exp[name].used)
 			}
@@ -725,25 +754,48 @@ func (w *c01World) check(t *rapid.T) {
 	}
 }
 
-func (w *c01World) freshManager() *c01Manager {
-	fresh := c01NewManager(w.flags.ScaleMin, c01RL(w.sysMax, c01Both), c01RL(w.defMax, c01Both))
-	users := w.userQuotas()
-	sort.SliceStable(users, func(i, j int) bool { return w.depth(users[i]) < w.depth(users[j]) })
-	for _, n := range users {
-		_ = fresh.UpdateQuota(w.quotas[n].build())
+// freshSummaries: one fresh manager per quota tree, fed the surviving quotas (parents first) and pods of that tree.
+func (w *c01World) freshSummaries() map[string]*c01Summary {
+	trees := map[string]bool{"": true}
+	for _, n := range w.userQuotas() {
+		trees[w.quotas[n].Tree] = true
 	}
-	for _, pn := range vk.SortedKeys(w.pods) {
-		p := w.pods[pn]
-		if p.In == "" {
-			continue
+	out := map[string]*c01Summary{}
+	for _, tree := range vk.SortedKeys(trees) {
+		fresh := c01NewTreeManager(tree, w.flags.ScaleMin, c01RL(w.sysMax, c01Both), c01RL(w.defMax, c01Both))
+		users := w.userQuotas()
+		sort.SliceStable(users, func(i, j int) bool { return w.depth(users[i]) < w.depth(users[j]) })
+		for _, n := range users {
+			if w.quotas[n].Tree == tree {
+				_ = fresh.UpdateQuota(w.quotas[n].build())
+			}
 		}
-		obj := p.Spec.build()
-		fresh.OnPodAdd(p.In, obj)
-		if p.Assigned && !fresh.GetQuotaInfoByName(p.In).CheckPodIsAssigned(obj) {
-			fresh.ReservePod(p.In, obj)
+		for _, pn := range vk.SortedKeys(w.pods) {
+			p := w.pods[pn]
+			if p.In == "" || w.quotas[p.In].Tree != tree {
+				continue
+			}
+			obj := p.Spec.build()
+			fresh.OnPodAdd(p.In, obj)
+			if p.Assigned && !fresh.GetQuotaInfoByName(p.In).CheckPodIsAssigned(obj) {
+				fresh.ReservePod(p.In, obj)
+			}
+		}
+		for name, sm := range fresh.GetQuotaSummaries(true) {
+			out[name] = sm
 		}
 	}
-	return fresh
+	return out
+}
+
+func (w *c01World) flatSummaries() map[string]*c01Summary {
+	out := map[string]*c01Summary{}
+	for _, m := range w.drv.Summaries() {
+		for name, sm := range m {
+			out[name] = sm
+		}
+	}
+	return out
 }
 
 // differential is oracle (b): a fresh manager fed the final objects must report the same figures.
@@ -751,8 +803,8 @@ func (w *c01World) differential(t *rapid.T, where string) {
 	if w.dead {
 		return
 	}
-	a := w.drv.Manager().GetQuotaSummaries(true)
-	b := w.freshManager().GetQuotaSummaries(true)
+	a := w.flatSummaries()
+	b := w.freshSummaries()
 	for _, f := range c01Fields {
 		for _, name := range vk.SortedKeys(w.quotas) {
 			sa, sb := a[name], b[name]
@@ -788,7 +840,9 @@ func (w *c01World) differential(t *rapid.T, where string) {
 // c01Driver delivers the events. The core driver restates the plugin's handlers on a bare GroupQuotaManager
 // (routing computed here); the plugin driver hands the objects to the real Plugin handlers.
 type c01Driver interface {
-	Manager() *c01Manager
+	Manager() *c01Manager // the manager of the default tree
+	// Summaries returns GetQuotaSummaries(true) of every quota tree's manager, keyed by tree id ("" = default tree).
+	Summaries() map[string]map[string]*c01Summary
 	QuotaUpsert(old, new *v1alpha1.ElasticQuota) error // old == nil: add event
 	QuotaDelete(obj *v1alpha1.ElasticQuota) error
 	PodAdd(route string, pod *corev1.Pod)
@@ -931,8 +985,25 @@ func (w *c01World) opQuotaCreate(t *rapid.T) {
 	depth := 1
 	if parent != extension.RootQuotaName {
 		depth = w.depth(parent) + 1
+		q.Tree = w.quotas[parent].Tree
 	}
 	q.IsParent = depth < 3 && rapid.IntRange(0, 2).Draw(t, "isParent") == 0
+	if w.flags.MultiTree && parent == extension.RootQuotaName {
+		// a top-level quota either belongs to the default tree or is the root quota of a new tree
+		var freeTrees []string
+		for _, tr := range []string{"t1", "t2"} {
+			used := false
+			for _, n := range w.userQuotas() {
+				used = used || w.quotas[n].Tree == tr
+			}
+			if !used {
+				freeTrees = append(freeTrees, tr)
+			}
+		}
+		if len(freeTrees) > 0 && rapid.IntRange(0, 2).Draw(t, "newTree") > 0 {
+			q.Tree, q.TreeRoot, q.IsParent = freeTrees[0], true, true
+		}
+	}
 	q.AllowLent = rapid.IntRange(0, 2).Draw(t, "allowLent") > 0
 	q.Max = c01GenMax(t)
 	q.Min, q.MinHas = c01GenMin(t, q.Max)
@@ -996,6 +1067,9 @@ func (w *c01World) toggleParentCandidates() []string {
 	var out []string
 	for _, n := range w.userQuotas() {
 		q := w.quotas[n]
+		if q.TreeRoot {
+			continue
+		}
 		if q.IsParent && len(w.childrenOf(n)) == 0 {
 			out = append(out, n) // true -> false needs no children
 		}
@@ -1033,10 +1107,18 @@ func (w *c01World) reparentMoves() []c01Move {
 			w.excludedMoves++ // exclusion pass: counted, reported as class "excluded-over-max-move"
 			continue
 		}
+		if w.quotas[n].TreeRoot {
+			continue // the root quota of a tree stays where it is
+		}
 		h := w.height(n)
 		for _, p := range w.parentCandidates(8) {
 			if p == w.quotas[n].Parent || p == n {
 				continue
+			}
+			if w.flags.MultiTree { // a quota never changes its tree
+				if (p == extension.RootQuotaName && w.quotas[n].Tree != "") || (p != extension.RootQuotaName && w.quotas[p].Tree != w.quotas[n].Tree) {
+					continue
+				}
 			}
 			pd := 0
 			if p != extension.RootQuotaName {
@@ -1205,6 +1287,16 @@ func (w *c01World) podAdd(t *rapid.T, name string) {
 // (it sits in the default quota by fall-back and its own quota has appeared since).
 func (w *c01World) misrouted(p *c01Pod) bool { return p.In != "" && p.In != w.route(p.Spec.Label) }
 
+// misroutedSig: a pod parked in the default quota whose own quota lives in another quota tree is a situation of its own
+// (the two quotas belong to different managers).
+func (w *c01World) misroutedSig(own string) string {
+	if q := w.quotas[own]; q != nil && q.Tree != "" {
+		w.sawCrossTreeWindow = true
+		return c01SigMisroutedCrossTree
+	}
+	return c01SigMisrouted
+}
+
 func (w *c01World) inFallback(p *c01Pod) bool {
 	return p.In == extension.DefaultQuotaName && p.Spec.Label != "" && p.Spec.Label != extension.DefaultQuotaName
 }
@@ -1295,6 +1387,9 @@ func (w *c01World) podUpdate(t *rapid.T, name string) {
 		// a genuine move between two quotas (the label changed): the pod starts afresh in the new quota, assigned when bound
 		if p.In != "" {
 			w.sawCrossQuota = true
+			if w.quotas[p.In].Tree != w.quotas[target].Tree {
+				w.sawCrossTreeRelabel = true
+			}
 		}
 		p.In, p.Assigned = target, s.Node != ""
 	}
@@ -1303,7 +1398,7 @@ func (w *c01World) podUpdate(t *rapid.T, name string) {
 	}
 	w.begin("podUpdate")
 	if mis {
-		w.family = &c01Family{sig: c01SigMisrouted, match: c01AnySymptom}
+		w.family = &c01Family{sig: w.misroutedSig(w.route(oldSpec.Label)), match: c01AnySymptom}
 	}
 	if reservedParkedMove {
 		w.sawParkedMoveReserved = true
@@ -1319,7 +1414,7 @@ func (w *c01World) podDelete(t *rapid.T, name string) {
 	p := w.pods[name]
 	w.begin("podDelete")
 	if w.misrouted(p) {
-		w.family = &c01Family{sig: c01SigMisrouted, match: c01AnySymptom}
+		w.family = &c01Family{sig: w.misroutedSig(w.route(p.Spec.Label)), match: c01AnySymptom}
 	}
 	w.log("podDelete %s (member of %q, event routed to %s)", name, p.In, w.route(p.Spec.Label))
 	delete(w.pods, name)
@@ -1361,10 +1456,15 @@ func (w *c01World) reserve(name string) {
 		// reservation has to be charged (the manager may move the pod first): the model follows the manager's placement,
 		// everything else (counted once, assigned, all figures) is checked as usual.
 		w.sawReserveMisrouted = true
-		summ := w.drv.Manager().GetQuotaSummaries(true)
+		summ := w.flatSummaries()
 		key := c01PodKey(name)
-		_, inOwn := summ[own].PodCache[key]
-		_, inDef := summ[p.In].PodCache[key]
+		inOwn, inDef := false, false
+		if sm := summ[own]; sm != nil {
+			_, inOwn = sm.PodCache[key]
+		}
+		if sm := summ[p.In]; sm != nil {
+			_, inDef = sm.PodCache[key]
+		}
 		if inOwn && !inDef {
 			p.In = own
 		}
@@ -1403,11 +1503,18 @@ func (w *c01World) unreserve(name string) {
 
 func (w *c01World) opMigrate(t *rapid.T) {
 	var movedModel []string
+	crossTreeReserved := false
 	for _, pn := range vk.SortedKeys(w.pods) {
 		p := w.pods[pn]
 		if p.In == extension.DefaultQuotaName && w.route(p.Spec.Label) != extension.DefaultQuotaName {
 			p.In = w.route(p.Spec.Label)
 			movedModel = append(movedModel, pn+"->"+p.In)
+			if w.quotas[p.In].Tree != "" {
+				w.sawCrossTreeMigrate = true
+				if p.Assigned && p.Spec.Node == "" {
+					crossTreeReserved = true // a reservation made while parked is carried into another tree
+				}
+			}
 		}
 	}
 	w.begin("migrateCycle")
@@ -1417,6 +1524,12 @@ func (w *c01World) opMigrate(t *rapid.T) {
 	n := before - after
 	if stale {
 		w.family = &c01Family{sig: c01SigStaleCache, match: c01AnySymptom}
+	}
+	if crossTreeReserved {
+		w.sawCrossTreeReservedMigrate = true
+		w.family = &c01Family{next: w.family, sig: c01SigCrossTreeMigrateDropped, match: func(what, dir, quota string) bool {
+			return what == "podcache:assigned-flag" || (strings.HasSuffix(what, "Used") && dir == "under")
+		}}
 	}
 	if n > 0 {
 		w.sawMigrate = true
@@ -1612,6 +1725,10 @@ func (w *c01World) step(t *rapid.T) {
 
 // ---------------------------------------------------------------- set-up shared by the tests
 
+func c01SetGate(name string, on bool) {
+	_ = utilfeature.DefaultMutableFeatureGate.Set(fmt.Sprintf("%s=%v", name, on))
+}
+
 func c01SetIgnoreTerminating(on bool) {
 	_ = utilfeature.DefaultMutableFeatureGate.Set(fmt.Sprintf("%s=%v", features.ElasticQuotaImmediateIgnoreTerminatingPod, on))
 }
@@ -1651,28 +1768,48 @@ func c01GenFlags(t *rapid.T) c01Flags {
 // ---------------------------------------------------------------- the sequential-history property
 
 func c01RunHistory(t *rapid.T, rec *vk.Rec, mk func(scaleMin bool, sysMax, defMax corev1.ResourceList) c01Driver) {
-	c01RunHistoryMode(t, rec, mk, false, false)
+	c01RunHistoryMode(t, rec, mk, c01Mode{})
 }
 
 // c01RunMigrateRace: the parked-pod generator, with the migrate cycle always run in its two steps and generated events
 // delivered between the snapshot and the per-pod step (see opMigrateInterleaved).
 func c01RunMigrateRace(t *rapid.T, rec *vk.Rec, mk func(scaleMin bool, sysMax, defMax corev1.ResourceList) c01Driver) {
-	c01RunHistoryMode(t, rec, mk, true, true)
+	c01RunHistoryMode(t, rec, mk, c01Mode{parked: true, interleave: true})
 }
 
 // c01RunParked: the same property with the generator aimed at pods that exist before their quota: they are parked in
 // the default quota, the migrate cycle is rare, and Reserve/Unreserve are issued while a pod is parked, also after its
 // own quota has appeared (the plugin then routes the call to that quota).
 func c01RunParked(t *rapid.T, rec *vk.Rec, mk func(scaleMin bool, sysMax, defMax corev1.ResourceList) c01Driver) {
-	c01RunHistoryMode(t, rec, mk, true, false)
+	c01RunHistoryMode(t, rec, mk, c01Mode{parked: true})
 }
 
-func c01RunHistoryMode(t *rapid.T, rec *vk.Rec, mk func(scaleMin bool, sysMax, defMax corev1.ResourceList) c01Driver, parked, interleave bool) {
+// c01RunMultiTree: the same property with feature gate MultiQuotaTree on: top-level quotas may open their own quota tree
+// (own manager, no default quota there), pods are routed by quota name to the tree's manager, a pod created before its
+// tree quota waits in the default quota of the default tree and is carried over by the migrate cycle. Every pod must be
+// counted in exactly one quota of exactly one tree; the figures of every tree's groups are recomputed from scratch.
+func c01RunMultiTree(t *rapid.T, rec *vk.Rec, mk func(scaleMin bool, sysMax, defMax corev1.ResourceList) c01Driver) {
+	c01RunHistoryMode(t, rec, mk, c01Mode{multiTree: true})
+}
+
+type c01Mode struct{ parked, interleave, multiTree bool }
+
+func c01RunHistoryMode(t *rapid.T, rec *vk.Rec, mk func(scaleMin bool, sysMax, defMax corev1.ResourceList) c01Driver, mode c01Mode) {
+	parked, interleave := mode.parked, mode.interleave
 	c := rec.Begin()
 	defer c.End()
 	var flags c01Flags
 	maxWarmQuotas := 4
-	if parked {
+	if mode.multiTree {
+		flags = c01Flags{MultiTree: true, Orphans: true,
+			EagerMigrate:     rapid.IntRange(0, 3).Draw(t, "eagerMigrate") > 0,
+			FreezeInFallback: rapid.Bool().Draw(t, "freezeInFallback"),
+			ParentPods:       rapid.Bool().Draw(t, "parentPods"),
+			IgnoreTerm:       rapid.IntRange(0, 3).Draw(t, "ignoreTerminating") == 0,
+			ScaleMin:         rapid.Bool().Draw(t, "scaleMin")}
+		c01SetGate(string(features.MultiQuotaTree), true)
+		defer c01SetGate(string(features.MultiQuotaTree), false)
+	} else if parked {
 		flags = c01Flags{Parked: true, Orphans: true, Interleave: interleave,
 			FreezeInFallback: rapid.Bool().Draw(t, "freezeInFallback"),
 			ParentPods:       rapid.Bool().Draw(t, "parentPods"),
@@ -1727,6 +1864,21 @@ func c01RunHistoryMode(t *rapid.T, rec *vk.Rec, mk func(scaleMin bool, sysMax, d
 	c.ClassIf(w.sawReserveMisrouted, "reserve-while-parked-after-own-quota-appeared")
 	c.ClassIf(w.sawUnreserveMisrouted, "unreserve-while-parked-after-own-quota-appeared")
 	c.ClassIf(w.sawParkedMoveReserved, "pod-update-moves-reserved-parked-pod-to-own-quota")
+	if mode.multiTree {
+		trees := map[string]bool{}
+		for _, n := range w.userQuotas() {
+			if w.quotas[n].Tree != "" {
+				trees[w.quotas[n].Tree] = true
+			}
+		}
+		c.ClassIf(w.sawTreePod, "pod-counted-in-non-default-tree")
+		c.ClassIf(w.sawCrossTreeMigrate, "migrate-cycle-carries-pod-into-other-tree")
+		c.ClassIf(w.sawCrossTreeReservedMigrate, "migrate-cycle-carries-reserved-pod-into-other-tree")
+		c.ClassIf(w.sawCrossTreeRelabel, "pod-update-moves-pod-between-trees")
+		c.ClassIf(w.sawCrossTreeWindow, "pod-event-while-parked-and-own-quota-in-other-tree")
+		c.ClassIf(len(trees) >= 1, "non-default-tree-at-end")
+		c.ClassIf(len(trees) >= 2, "two-non-default-trees-at-end")
+	}
 	c.ClassIf(w.sawWindowMoved, "migrate-step-for-pod-moved-since-snapshot")
 	c.ClassIf(w.sawWindowDeleted, "migrate-step-for-pod-deleted-since-snapshot")
 	c.ClassIf(w.sawWindowChanged, "migrate-step-for-pod-updated-since-snapshot")
@@ -1744,6 +1896,9 @@ func c01RunHistoryMode(t *rapid.T, rec *vk.Rec, mk func(scaleMin bool, sysMax, d
 	}
 	if interleave { // a migrate step for a pod that was moved, deleted or updated since the snapshot
 		nt = w.sawWindowMoved || w.sawWindowDeleted || w.sawWindowChanged
+	}
+	if mode.multiTree { // a pod carried into / moved between trees
+		nt = w.sawCrossTreeMigrate || w.sawCrossTreeRelabel
 	}
 	if nt {
 		c.NonTrivial(w.hist)
@@ -1764,6 +1919,9 @@ type c01RecDriver struct {
 
 func (d *c01RecDriver) rec(f func())         { *d.cur = append(*d.cur, f) }
 func (d *c01RecDriver) Manager() *c01Manager { return d.inner.Manager() }
+func (d *c01RecDriver) Summaries() map[string]map[string]*c01Summary {
+	return d.inner.Summaries()
+}
 func (d *c01RecDriver) QuotaUpsert(old, new *v1alpha1.ElasticQuota) error {
 	d.rec(func() { _ = d.inner.QuotaUpsert(old, new) })
 	return nil
